@@ -251,3 +251,6 @@ fn c04_block_verify_notc() { block_verify(false, false) }
 #[kani::proof]
 #[kani::unwind(10)]
 fn c04_block_verify_tc() { block_verify(false, true) }
+#[kani::proof]
+#[kani::unwind(10)]
+fn c04_block_verify_genesis_tc() { block_verify(true, true) }
